@@ -1197,6 +1197,7 @@ def main():
     import resp2lean   # write_response: serialisation of the server's answer
     import hdr2lean    # FrameHeader: the header decoder and encoder
     import mask2lean   # mask.rs: apply_mask, the fallback and the word-wise fast path
+    import readin2lean  # FrameCodec::read_in: resize / read / truncate of the input buffer
     gens = GENERATORS + [('Ctx.lean', ctx2lean.gen_ctx), ('CodecGen.lean', codec2lean.gen_codec),
                          ('HsGen.lean', hs2lean.gen_hs), ('CollGen.lean', coll2lean.gen_coll),
                          ('FrameGen.lean', frame2lean.gen_frame),
@@ -1204,7 +1205,8 @@ def main():
                          ('IncGen.lean', inc2lean.gen_inc),
                          ('RespGen.lean', resp2lean.gen_resp),
                          ('HdrGen.lean', hdr2lean.gen_hdr),
-                         ('MaskGen.lean', mask2lean.gen_mask)]
+                         ('MaskGen.lean', mask2lean.gen_mask),
+                         ('ReadInGen.lean', readin2lean.gen_readin)]
     for name, fn in gens:
         try:
             text = fn(repo)
